@@ -202,10 +202,12 @@ macro_rules! char_range {
         }
     };
 }
+char_range!(c06_char_range_2, 2, 5);
 char_range!(c06_char_range_3, 3, 6);
 char_range!(c06_char_range_4, 4, 7);
 
 crate::list![
+    c06_char_range_2,
     c06_char_range_3,
     c06_char_range_4,
     c06_ipv6_3,
